@@ -17,20 +17,20 @@ Module D := Wbxml.Proofs.EncWbxmlDenote.
 (* ---- a document of the parser's shape builds the abstract tree ---- *)
 Lemma build_of_shape tbl ef cs lid p1 t a inner p2 ch :
   all_pi p1 = true -> all_pi p2 = true -> spec_forest inner ch -> not_data t = true -> no_data inner = true ->
-  build tbl (S ef) (EvStartDoc cs lid :: (p1 ++ (EvStartElt t a :: inner ++ [EvEndElt t]) ++ p2) ++ [EvEndDoc])
+  build tbl ef (EvStartDoc cs lid :: (p1 ++ (EvStartElt t a :: inner ++ [EvEndElt t]) ++ p2) ++ [EvEndDoc])
   = BOk (mk_wtree lid cs (Some (TElt t a (merge_text ch)))).
 Proof.
   intros H1 H2 Hs Ht Hni. unfold build.
   change (EvStartDoc cs lid :: (p1 ++ (EvStartElt t a :: inner ++ [EvEndElt t]) ++ p2) ++ [EvEndDoc])
     with ([EvStartDoc cs lid] ++ (p1 ++ ([EvStartElt t a] ++ inner ++ [EvEndElt t]) ++ p2) ++ [EvEndDoc]).
-  rewrite build_from_app. change (build_from tbl (S ef) [EvStartDoc cs lid] st_init) with (BOk (mk_bstate lid cs [] None)).
-  cbv beta iota. rewrite build_from_app, build_from_app. rewrite (build_from_pis tbl ef p1 _ H1). cbv beta iota.
+  rewrite build_from_app, build_from_startdoc. change (mk_bstate lid cs (b_stack st_init) (b_root st_init)) with (mk_bstate lid cs [] None).
+  cbv beta iota. rewrite build_from_app, build_from_app. rewrite (build_from_pis tbl _ p1 _ H1). cbv beta iota.
   rewrite build_from_app, build_from_app, build_from_start.
   change (cb_start_element t a (mk_bstate lid cs [] None)) with (BOk (mk_bstate lid cs [mk_frame t a [] None] None)). cbv beta iota.
   rewrite build_from_app.
   rewrite (run_spec tbl ef inner ch Hs Hni (mk_bstate lid cs [mk_frame t a [] None] None) (mk_frame t a [] None) [] eq_refl eq_refl Ht).
   cbn [b_lang b_charset b_root f_tag f_attrs f_done]. rewrite build_from_end. unfold cb_end_element. cbn [b_stack f_cdata].
-  rewrite (build_from_pis tbl ef p2 _ H2). cbn [build_from]. unfold tree_of_state. cbn [b_lang b_charset b_stack view hd_error].
+  rewrite (build_from_pis tbl _ p2 _ H2). rewrite build_from_enddoc. unfold tree_of_state. cbn [b_lang b_charset b_stack view hd_error].
   unfold frame_node, frame_children, cdata_nodes, merge_text. cbn [f_tag f_attrs f_done f_cdata]. rewrite !app_nil_r. reflexivity.
 Qed.
 
@@ -75,7 +75,7 @@ Theorem roundtrip_fragment tblb TBL L l o p t opts nm ch :
   E.o_version o < 4 -> E.header_public_id (E.enc_env l o) < 4294967296 -> E.header_public_id (E.enc_env l o) <> 0 ->
   no_data (flat_map D.events_node (TreeNorm.norm (E.o_keep_ws o) [E.NElt (E.TagTok p t opts nm) [] ch])) = true ->
   exists bs, E.enc_wbxml tblb l o [E.NElt (E.TagTok p t opts nm) [] ch] = E.EOk bs /\
-    forall ef, tree_from_wbxml TBL (l_id L) 0 (S ef) bs
+    forall ef, tree_from_wbxml TBL (l_id L) 0 ef bs
                = BOk (mk_wtree (l_id L) 106 (hd_error (flat_map tn (TreeNorm.norm (E.o_keep_ws o) [E.NElt (E.TagTok p t opts nm) [] ch])))).
 Proof.
   intros HL HU HP HF HFind Hid HT Hv H1 H0 Hnd.
